@@ -632,9 +632,21 @@ Fixpoint c03_fixpoint (c : cluster) (runs : list (scenario * outcome)) : bool :=
 
 Definition check_C01 := check_with mon_C01.
 Definition check_C02 := check_with mon_C02.
+(* "a destroy in which every object is deleted leaves neither managed objects nor the inventory object":
+   with mon_C03 (stored keys = the retained set) this is: after an error-free real destroy the stored
+   inventory is never an EMPTY object — it is deleted, or it retains something (seed C03e). Executable
+   check on the implementation's outcome; for the model see C03_destroy_never_leaves_empty_inventory. *)
+Definition c03_destroy_done (sc : scenario) (out : outcome) : bool :=
+  let o := sc_opts sc in
+  if has_error (out_trace out) || is_dry (o_dry o) || negb (o_destroy o) then true
+  else match inv (out_final out) with
+       | Some [] => false
+       | _ => true
+       end.
 Definition check_C03 (h : history) : nat :=
   let '(c0, runs) := h in
-  let '(a, m) := check_runs mon_C03 c0 runs in code a (m && c03_fixpoint c0 runs).
+  let '(a, m) := check_runs mon_C03 c0 runs in
+  code a (m && c03_fixpoint c0 runs && forallb (fun x => c03_destroy_done (fst x) (snd x)) runs).
 Definition check_C04 := check_with (fun sc c0 out => mon_C04 sc c0 out && mon_C04_obs sc c0 out).
 Definition check_C05 := check_with mon_C05.
 Definition check_C10 := check_with mon_C10.
